@@ -248,15 +248,9 @@ func profLockstep(en *Env) {
 		vs := h.NewValues()
 		batches := s%3 != 2 // every third script is batch-free (byte comparison)
 		sc := genScript(en, nkeys, vs, steps, batches)
-		if !batches {
-			// the byte comparison needs a layout that is a function of the operation sequence: Merge rewrites the
-			// older files in the iteration order of a Go map, so merged layouts legitimately differ from run to run
-			for i := range sc {
-				if sc[i].op == "Merge" {
-					sc[i] = scriptStep{"Sync", 0, 0, 0}
-				}
-			}
-		}
+		// (the byte comparison of the batch-free scripts needs a layout that is a function of the operation sequence:
+		// since fix F34 - Merge rewrites the files in ascending id order, no longer in the iteration order of a Go map -
+		// merged layouts are, and the Merge steps stay in these scripts)
 		u := h.PickKeys(en.R, nkeys, 6+en.R.Intn(6))
 		if s%3 == 0 {
 			// very long keys, all live, merged and restarted twice: the hint path must not depend on the index type
